@@ -1365,7 +1365,9 @@ namespace xsimd
                         if (all(test))
                             return select(inf_result, constants::nan<batch_type>(), r);
                     }
-                    batch_type r1 = other(a);
+                    // lanes handled by large_negative must not enter the recurrences of other():
+                    // their trip count is proportional to |a| (and unbounded for -inf)
+                    batch_type r1 = other(select(test, batch_type(1.), a));
                     batch_type r2 = select(test, r, r1);
                     return select(a == constants::minusinfinity<batch_type>(), constants::nan<batch_type>(), select(inf_result, constants::infinity<batch_type>(), r2));
                 }
